@@ -65,6 +65,24 @@ Theorem done_faithful : forall s eh c o st d,
 Proof. exact step_done_faithful. Qed.
 Print Assumptions done_faithful.
 
+(* done_enabled (liveness as enabledness + progress; what remains is that the
+   Go runtime runs the woken goroutine): in every reachable state, a stream
+   parked on an operation whose task is completed is at the clock gate, and
+   the event that lets it run (any clock reading t, any hints) sends the done
+   message with the recorded response and moves the call to its return
+   section.  The operation cannot have been collected meanwhile: it has a
+   waiter, hence no removal is scheduled (ProofsWaiters.v). *)
+Theorem done_enabled : forall cfg t0 evs c o g r t h,
+  fresh_calls [] evs ->
+  let s := fst (run (init cfg t0) evs) in
+  get_call s c = PStream o g ->
+  t_resp (get_task s (o_task (get_op s o))) = Some r ->
+  at_gate s (PStream o g) = true /\
+  In (OMsg c o 4 (Some r)) (snd (step s (EEnter c t, h))) /\
+  get_call (fst (step s (EEnter c t, h))) c = PStreamReturn o cOK.
+Proof. exact done_enabled_all. Qed.
+Print Assumptions done_enabled.
+
 (* One iteration of operation.waitExecution: if the task has a response the
    message sent is the done message carrying exactly that response and the
    stream moves to its return section with code OK ... *)
